@@ -22,10 +22,12 @@ import (
 	"github.com/idena-network/idena-go/blockchain/types"
 	"github.com/idena-network/idena-go/blockchain/validation"
 	"github.com/idena-network/idena-go/common"
+	math2 "github.com/idena-network/idena-go/common/math"
 	"github.com/idena-network/idena-go/config"
 	"github.com/idena-network/idena-go/core/state"
 	"github.com/idena-network/idena-go/crypto"
 	"github.com/idena-network/idena-go/verifutil"
+	"github.com/shopspring/decimal"
 )
 
 // the Rust WASM runtime only provides the `env.debug` import the bundled contracts need when
@@ -52,6 +54,9 @@ type c15Outcome struct {
 	GasUsed  uint64
 	Err      string
 	Kind     string
+	// addresses without code (in the state WITHOUT the tx) at which the execution tried to create a contract:
+	// the top-level deployment's own address and every sub-deployment of the action tree
+	Creates []common.Address
 }
 
 type c15Ctx struct {
@@ -166,7 +171,52 @@ func c15Unexplained(diff []string, s0, s1 map[string][]byte, senders []common.Ad
 }
 
 // Eval = one contract transaction as a twin pair, all oracles.
-func (x *c15Ctx) Eval(a *C15Action) (out c15Outcome) {
+func (x *c15Ctx) Eval(a *C15Action) (out c15Outcome) { return x.EvalAfter(nil, a) }
+
+// c15FeeBurn is the share of the fees of a block that is destroyed (applyBlockRewards: ToInt(totalFee x
+// FeeBurnRate), the rest goes to the proposer; the split of the proposer's part into balance and stake
+// preserves the sum).
+func c15FeeBurn(total *big.Int, rate float32) *big.Int {
+	return math2.ToInt(decimal.NewFromBigInt(total, 0).Mul(decimal.NewFromFloat32(rate)))
+}
+
+// c15ExplicitBurn bounds what a SUCCESSFUL contract tx may destroy besides the burnt share of its fee: [lo, hi].
+// The embedded contracts destroy coins in two ways only: BurnAll (whatever is left on the contract's own
+// balance; called by finishVoting, refund and the terminations) and the half of the stake a termination does
+// not refund. WASM contracts destroy coins through the host's `burn` only, which none of the bundled modules
+// imports: of the kinds deployed here only the spender's burn(amount) does. held = what the contract holds while
+// the tx runs (its balance without the tx + the pay amount).
+func c15ExplicitBurn(kind string, tx *types.Transaction, tr *TwinResult, contract common.Address, wasmTx bool) (lo, hi *big.Int) {
+	lo, hi = new(big.Int), new(big.Int)
+	st0 := tr.Post0.State
+	held := new(big.Int).Set(st0.GetBalance(contract))
+	if tx.Type == types.CallContractTx || tx.Type == types.DeployContractTx && wasmTx {
+		held.Add(held, tx.AmountOrZero())
+	}
+	switch {
+	case kind == "wasm:other":
+		hi.Set(held) // code of the harness' mutations: whatever it is, it cannot destroy more than it holds
+	case c15IsWasmKind(kind):
+		if att := attachments.ParseCallContractAttachment(tx); tx.Type == types.CallContractTx && kind == kSpender && att != nil && att.Method == "burn" && len(att.Args) > 0 {
+			lo.SetBytes(att.Args[0])
+			hi.Set(lo)
+		}
+	case tx.Type == types.TerminateContractTx:
+		stake := bigOrZero(st0.GetContractStake(contract))
+		lo.Sub(stake, new(big.Int).Quo(stake, big.NewInt(2)))
+		hi.Add(lo, held)
+	case tx.Type == types.CallContractTx:
+		if att := attachments.ParseCallContractAttachment(tx); att != nil && (att.Method == "finishVoting" || att.Method == "refund") {
+			hi.Set(held)
+		}
+	}
+	return
+}
+
+// EvalAfter evaluates the contract transaction of `a` behind a PREFIX of ordinary transactions in the same
+// block (block [prefix, tx] versus block [prefix]): the harness uses it to put coins on an address right
+// before the transaction turns that address into a contract.
+func (x *c15Ctx) EvalAfter(prefix []*types.Transaction, a *C15Action) (out c15Outcome) {
 	w, twin, rep := x.w, x.twin, x.rep
 	tx := a.Tx
 	sender := a.From.Addr
@@ -175,7 +225,18 @@ func (x *c15Ctx) Eval(a *C15Action) (out c15Outcome) {
 	out.Kind = kind
 	tag := kind + ":" + a.Method
 	replay := map[string]interface{}{"tx": a.Describe(), "head": twin.Head().Height(), "scenario_seed": w.Opt.Seed, "step": x.gen.Step}
-	tr, err := w.Twin(twin, tx, true)
+	if len(prefix) > 0 {
+		var pd []string
+		for _, p := range prefix {
+			to := "nil"
+			if p.To != nil {
+				to = fmt.Sprintf("%x", p.To[:4])
+			}
+			pd = append(pd, fmt.Sprintf("%s nonce=%d to=%s amount=%v", TxName(p.Type), p.AccountNonce, to, p.AmountOrZero()))
+		}
+		replay["same_block_prefix"] = pd
+	}
+	tr, err := w.TwinAfter(twin, prefix, tx, true)
 	if tr == nil {
 		rep.Count("twin_unusable", 1)
 		return
@@ -194,7 +255,7 @@ func (x *c15Ctx) Eval(a *C15Action) (out c15Outcome) {
 	}
 	out.Included = true
 	rep.Eval(1)
-	if len(tr.Receipts) != 1 {
+	if len(tr.Receipts) != 1 || tr.Receipts[0].TxHash != tx.Hash() {
 		rep.Violation("receipt-count:"+tag, fmt.Sprintf("block with one contract tx produced %d receipts (%s)", len(tr.Receipts), a.Describe()), replay)
 		return
 	}
@@ -313,6 +374,79 @@ func (x *c15Ctx) Eval(a *C15Action) (out c15Outcome) {
 	if l1.Total.Cmp(l0.Total) < 0 {
 		rep.Count("twins_with_burn", 1)
 	}
+	// ---- (3b) conservation to the unit: the block with the tx holds exactly the burnt share of the tx's fee
+	// (size fee + gas cost; the rest of the fee and the tips go to the proposer) and the coins the call
+	// semantics destroy explicitly LESS than the block without it - nothing appears, nothing else vanishes
+	contractAddr := rc.ContractAddress
+	if tx.To != nil {
+		contractAddr = *tx.To
+	}
+	wasmTx := c15IsWasmKind(kind)
+	if pre.State.GetPenalty(coinbase) != nil && pre.State.GetPenalty(coinbase).Sign() > 0 || pre.State.GetPenaltySeconds(coinbase) > 0 {
+		rep.Count("oracle3b_skipped_proposer_penalty", 1) // (a penalised proposer's reward is destroyed as well)
+	} else {
+		feesBefore := new(big.Int)
+		for _, p := range prefix {
+			feesBefore.Add(feesBefore, c15TxFee(pre, p))
+		}
+		feesWith := new(big.Int).Add(feesBefore, new(big.Int).Add(txFee, bigOrZero(rc.GasCost)))
+		feeBurn := new(big.Int).Sub(c15FeeBurn(feesWith, w.Cons.FeeBurnRate), c15FeeBurn(feesBefore, w.Cons.FeeBurnRate))
+		lo, hi := new(big.Int), new(big.Int)
+		if rc.Success {
+			lo, hi = c15ExplicitBurn(kind, tx, tr, contractAddr, wasmTx)
+		}
+		// gone = what the tx removed from Σ besides the burnt share of its fee
+		gone := new(big.Int).Sub(new(big.Int).Sub(l0.Total, l1.Total), feeBurn)
+		what := "failed"
+		if rc.Success {
+			what = "successful"
+		}
+		switch {
+		case gone.Cmp(lo) < 0:
+			rep.Violation("conservation:coins-appeared:"+tag, fmt.Sprintf("%s %s: Σ(balance+stake+contract stake) without the tx %v, with it %v; the burnt share of its fee (%v of size fee %v + gas cost %v) is %v and the call semantics destroy at least %v, so %v coins appeared from nowhere",
+				what, a.Describe(), l0.Total, l1.Total, w.Cons.FeeBurnRate, txFee, bigOrZero(rc.GasCost), feeBurn, lo, new(big.Int).Sub(lo, gone)), map[string]interface{}{"case": replay, "diff": LedgerDiff(l0, l1)})
+		case gone.Cmp(hi) > 0:
+			rep.Violation("conservation:coins-vanished:"+tag, fmt.Sprintf("%s %s: Σ(balance+stake+contract stake) without the tx %v, with it %v; the burnt share of its fee (%v of size fee %v + gas cost %v) is %v and the call semantics destroy at most %v, so %v coins vanished without a burn",
+				what, a.Describe(), l0.Total, l1.Total, w.Cons.FeeBurnRate, txFee, bigOrZero(rc.GasCost), feeBurn, hi, new(big.Int).Sub(gone, hi)), map[string]interface{}{"case": replay, "diff": LedgerDiff(l0, l1)})
+		}
+		rep.Count("oracle3b_sum_checked", 1)
+		if rc.Success {
+			rep.Count("oracle3b_sum_checked_success", 1)
+			if lo.Cmp(hi) == 0 {
+				rep.Count("oracle3b_sum_checked_success_exact", 1)
+			}
+		}
+	}
+	// ---- (3c) coins that sit on an address before it becomes a contract are still there afterwards: every
+	// address the tx turned into a contract holds at least what it holds in the block without the tx
+	for _, k := range diff {
+		if KeyClass([]byte(k)) != "account" || len(k) != 21 {
+			continue
+		}
+		var a0, a1 state.Account
+		if s0[k] != nil {
+			a0.FromBytes(s0[k])
+		}
+		if s1[k] == nil || a1.FromBytes(s1[k]) != nil || a1.Contract == nil || a0.Contract != nil {
+			continue
+		}
+		ad := c15AddrOf([]byte(k)[1:])
+		rep.Count("oracle3c_new_contracts_checked", 1)
+		if bigOrZero(a0.Balance).Sign() > 0 {
+			rep.Count("oracle3c_new_contracts_checked_holding_coins", 1)
+		}
+		if ad == sender || ad == coinbase {
+			continue
+		}
+		if bigOrZero(a1.Balance).Cmp(bigOrZero(a0.Balance)) < 0 {
+			how := "the contract this tx deploys"
+			if ad != rc.ContractAddress {
+				how = "a contract created by a SUB-deployment of this tx"
+			}
+			rep.Violation("conservation:new-contract-lost-coins:"+tag, fmt.Sprintf("%x (%s) held %v before it became a contract (block without the tx) and holds %v afterwards: %v coins that were waiting on the address are gone; %s",
+				ad[:4], how, bigOrZero(a0.Balance), bigOrZero(a1.Balance), new(big.Int).Sub(bigOrZero(a0.Balance), bigOrZero(a1.Balance)), a.Describe()), replay)
+		}
+	}
 	addrs := map[common.Address]bool{sender: true, rc.ContractAddress: true}
 	if tx.To != nil {
 		addrs[*tx.To] = true
@@ -333,6 +467,16 @@ func (x *c15Ctx) Eval(a *C15Action) (out c15Outcome) {
 	if rc.Success {
 		x.checkSuccess(a, kind, tr, rc, s0, s1, l0, l1, coinbase, replay)
 	}
+	if tx.Type == types.DeployContractTx && tr.Post0.State.GetCodeHash(rc.ContractAddress) == nil {
+		out.Creates = append(out.Creates, rc.ContractAddress)
+		if tr.Post0.State.GetBalance(rc.ContractAddress).Sign() > 0 {
+			rep.Count("deploy_prefunded_evaluated", 1)
+			if rc.Success {
+				rep.Count("deploy_prefunded_succeeded", 1)
+				rep.Count("deploy_prefunded_succeeded:"+c15Engine(kind), 1)
+			}
+		}
+	}
 	// failed sub-deployments inside a WASM execution must not leave the sub-contract behind
 	if subs, ok := c15WalkAction(rc.ActionResult); ok {
 		for _, s := range subs {
@@ -347,6 +491,24 @@ func (x *c15Ctx) Eval(a *C15Action) (out c15Outcome) {
 				if s.OK {
 					rep.Count("wasm_subdeploy_ok", 1)
 				}
+				if tr.Post0.State.GetCodeHash(s.Contract) == nil {
+					out.Creates = append(out.Creates, s.Contract)
+					// the address of the would-be contract held coins before the call (sent there by an ordinary
+					// SendTx in an earlier block or earlier in this block)
+					if tr.Post0.State.GetBalance(s.Contract).Sign() > 0 {
+						when := "earlier-block"
+						if len(prefix) > 0 {
+							when = "same-block"
+						}
+						rep.Count("subdeploy_prefunded_evaluated", 1)
+						rep.Count("subdeploy_prefunded_evaluated:"+when, 1)
+						if s.OK && rc.Success && tr.Post1.State.GetCodeHash(s.Contract) != nil {
+							rep.Count("subdeploy_prefunded_succeeded", 1)
+							rep.Count("subdeploy_prefunded_succeeded:"+when, 1)
+							rep.Distinct("prefunded-sub-deployment", kind, when)
+						}
+					}
+				}
 				if (!s.OK || !rc.Success) && tr.Post0.State.GetCodeHash(s.Contract) == nil && tr.Post1.State.GetCodeHash(s.Contract) != nil {
 					rep.Violation("failure-left-trace:"+kind+":sub-deploy", fmt.Sprintf("sub-deployment of %x failed (%s) but the contract exists afterwards; %s", s.Contract[:4], s.Err, a.Describe()), replay)
 				}
@@ -359,6 +521,33 @@ func (x *c15Ctx) Eval(a *C15Action) (out c15Outcome) {
 		rep.Sample(map[string]interface{}{"tx": a.Describe(), "receipt": c15ReceiptView(rc), "state_keys_differing_with_vs_without": diffDesc, "ledger_diff": LedgerDiff(l0, l1)})
 	}
 	return
+}
+
+// evalPrefunded evaluates `a` once more as [SendTx signer -> target, a'] versus [SendTx signer -> target], a' = a
+// with the next nonce: `target` is an address the execution of `a` tries to create a contract at. For an
+// embedded deployment the contract address depends on the nonce, so the target is recomputed.
+func (x *c15Ctx) evalPrefunded(a *C15Action, target common.Address, rng *verifutil.Rng) {
+	w := x.w
+	tx := a.Tx
+	b := a.Resign(tx.AccountNonce + 1)
+	b.Submit = false
+	if tx.Type == types.DeployContractTx {
+		if att := attachments.ParseDeployContractAttachment(tx); att != nil && len(att.Code) == 0 {
+			target = ContractAddr(a.From.Addr, b.Tx)
+		}
+	}
+	st := x.twin.AppState.State
+	amount := Dna(int64(rng.Range(1, 60)))
+	feeRate := st.FeePerGas()
+	maxFee := new(big.Int).Add(new(big.Int).Mul(feeRate, big.NewInt(40000)), big.NewInt(1000))
+	need := new(big.Int).Add(new(big.Int).Add(amount, maxFee), new(big.Int).Add(tx.AmountOrZero(), new(big.Int).Add(tx.MaxFeeOrZero(), tx.TipsOrZero())))
+	if st.GetBalance(a.From.Addr).Cmp(need) < 0 || w.StateNonce(a.From) != tx.AccountNonce {
+		x.rep.Count("prefund_same_block_skipped", 1)
+		return
+	}
+	pre := SignedTx(a.From, types.SendTx, &target, amount, maxFee, nil, tx.AccountNonce, tx.Epoch, nil)
+	x.rep.Count("prefund_same_block_attempted", 1)
+	x.EvalAfter([]*types.Transaction{pre}, b)
 }
 
 func delta(l0, l1 *Ledger, a common.Address) *big.Int {
@@ -564,6 +753,41 @@ func (x *c15Ctx) checkSuccess(a *C15Action, kind string, tr *TwinResult, rc *typ
 					if d := delta(l0, l1, addr); d.Cmp(want) != 0 {
 						bad("contract-balance", "contract balance changed by %v, expected pay amount %v - %s %v", d, tx.AmountOrZero(), att.Method, amt)
 					}
+				}
+			}
+		case kDeployer:
+			// make(code, packed args, nonce, amount, gas): the new contract is endowed with `amount` of the
+			// deployer's coins ON TOP of whatever its address held; a sub-deployment that fails moves nothing
+			if att.Method == "make" && len(args) == 5 {
+				subs, _ := c15WalkAction(rc.ActionResult)
+				var sub *c15SubAction
+				for i := range subs {
+					if subs[i].Type == 3 {
+						sub = &subs[i]
+						break
+					}
+				}
+				if sub == nil || special(addr) || special(sub.Contract) || sub.Contract == addr {
+					break
+				}
+				pay, amt := tx.AmountOrZero(), new(big.Int).SetBytes(arg(3))
+				created := tr.Post0.State.GetCodeHash(sub.Contract) == nil && post.GetCodeHash(sub.Contract) != nil
+				if sub.OK != created {
+					bad("sub-deploy-result", "the action tree says the sub-deployment of %x succeeded=%v, the state says created=%v", sub.Contract[:4], sub.OK, created)
+				}
+				wantC, wantS := new(big.Int).Set(pay), new(big.Int)
+				if created {
+					if held := new(big.Int).Add(tr.Post0.State.GetBalance(addr), pay); amt.Cmp(held) > 0 {
+						bad("overspend", "sub-deployment endowed with %v succeeded although the deployer held only %v (incl. the pay amount %v)", amt, held, pay)
+					}
+					wantC.Sub(wantC, amt)
+					wantS.Set(amt)
+				}
+				if d := delta(l0, l1, sub.Contract); d.Cmp(wantS) != 0 {
+					bad("sub-contract-balance", "balance of the address of the sub-deployment %x (created=%v; %v without the call) changed by %v, expected %v (the endowment)", sub.Contract[:4], created, tr.Post0.State.GetBalance(sub.Contract), d, wantS)
+				}
+				if d := delta(l0, l1, addr); d.Cmp(wantC) != 0 {
+					bad("contract-balance", "deployer balance changed by %v, expected pay amount %v - endowment %v of a sub-deployment that was created=%v", d, pay, amt, created)
 				}
 			}
 		case kErc20:
@@ -783,6 +1007,7 @@ func TestVerifC15(t *testing.T) {
 			c15Fatal(t, rep, "prologue: %v", err)
 		}
 		gen := NewC15Gen(w, twin, verifutil.NewRng(seed, 15), kinds)
+		gen.RD = verifutil.NewRng(seed, 1518) // turns of the deployer contracts (sub-deployments)
 		if err := gen.Fund(Dna(26000)); err != nil {
 			c15Fatal(t, rep, "funding: %v", err)
 		}
@@ -790,6 +1015,7 @@ func TestVerifC15(t *testing.T) {
 		rep.Count("scenarios:"+mode, 1)
 		rng := verifutil.NewRng(seed, 1515)
 		seqRng := verifutil.NewRng(seed, 1516) // the same-block sequences draw from a stream of their own
+		subRng := verifutil.NewRng(seed, 1517) // ... and so do the same-block pre-fundings of future contract addresses
 		jumpAt := nsteps * 6 / 10
 		for i := 0; i < nsteps; i++ {
 			rep.Progress("C15 scenario %d seed %d mode %s step %d", sc, seed, mode, i)
@@ -807,6 +1033,10 @@ func TestVerifC15(t *testing.T) {
 			for _, a := range acts {
 				out := x.Eval(a)
 				inSeq := a
+				rng, seqRng := rng, seqRng
+				if a.C != nil && a.C.Kind == kDeployer {
+					rng, seqRng = subRng, subRng // (the deployer contracts' turns leave the streams of the other kinds alone)
+				}
 				if out.Included && out.Success && out.GasUsed > 1 && rng.Intn(100) < 45 {
 					// failure-point sweep: the same call with a budget that ends inside the execution
 					budget, rem, cls := int64(rng.Intn(int(out.GasUsed))), int64(0), "inside"
@@ -834,6 +1064,18 @@ func TestVerifC15(t *testing.T) {
 				}
 				if out.Included {
 					seqMid = append(seqMid, inSeq)
+				}
+				// pre-funding in the SAME block: the tx tried to create a contract (its own deployment or a
+				// sub-deployment of the action tree) at an address without code - evaluate it once more
+				// behind an ordinary SendTx of the same signer that puts coins on that address
+				if out.Included && len(out.Creates) > 0 {
+					pct := 12 // top-level deployments
+					if a.TxKind != "Deploy" {
+						pct = 50
+					}
+					if subRng.Intn(100) < pct {
+						x.evalPrefunded(a, out.Creates[subRng.Intn(len(out.Creates))], subRng)
+					}
 				}
 				if a.Submit && out.Included {
 					w.Submit(a.Tx)
@@ -912,9 +1154,11 @@ func TestVerifC15(t *testing.T) {
 			rep.Count("chain_blocks", 1)
 		}
 		// which types were deployed in the canonical chain
-		for _, c := range gen.Contracts {
-			if c.Deployed {
-				rep.Count("chain_deployed:"+c15Versioned(c.Kind, w.Cons.EnableUpgrade10), 1)
+		for _, l := range [][]*C15Contract{gen.Contracts, gen.Deployers} {
+			for _, c := range l {
+				if c.Deployed {
+					rep.Count("chain_deployed:"+c15Versioned(c.Kind, w.Cons.EnableUpgrade10), 1)
+				}
 			}
 		}
 		w.Cleanup()
